@@ -6,6 +6,7 @@ import (
 	"os/exec"
 	"regexp"
 	"strings"
+	"sync"
 )
 
 // C12: Parse is total and accepts exactly the properly nested templates.
@@ -212,40 +213,74 @@ func runSkelModel(o *Options, res *Result) error {
 	if len(skObserved) == 0 {
 		return nil
 	}
-	var sb strings.Builder
-	sb.WriteString("From DT Require Import Model.Bytes Model.ParserSkel.\nFrom Coq Require Import List Bool.\nImport ListNotations.\n")
-	sb.WriteString("Definition sv := Eval vm_compute in [\n")
-	for i, s := range skObserved {
-		var ts []string
-		for _, t := range s.Tags {
-			if c, ok := skTagCoq[t]; ok {
-				ts = append(ts, c)
+	// shards of 2000 skeletons, evaluated in parallel (one big list overflows coqc's stack)
+	const per = 2000
+	nsh := (len(skObserved) + per - 1) / per
+	verdicts := make([][]string, nsh)
+	errs := make([]error, nsh)
+	sem := make(chan struct{}, 12)
+	var wg sync.WaitGroup
+	for sh := 0; sh < nsh; sh++ {
+		lo, hi := sh*per, (sh+1)*per
+		if hi > len(skObserved) {
+			hi = len(skObserved)
+		}
+		wg.Add(1)
+		go func(sh, lo, hi int) {
+			defer wg.Done()
+			sem <- struct{}{}
+			defer func() { <-sem }()
+			var sb strings.Builder
+			sb.WriteString("From DT Require Import Model.Bytes Model.ParserSkel.\nFrom Coq Require Import List Bool.\nImport ListNotations.\n")
+			sb.WriteString("Definition sv := Eval vm_compute in [\n")
+			for i := lo; i < hi; i++ {
+				s := skObserved[i]
+				var ts []string
+				for _, t := range s.Tags {
+					if c, ok := skTagCoq[t]; ok {
+						ts = append(ts, c)
+					}
+				}
+				sep := ";"
+				if i == hi-1 {
+					sep = ""
+				}
+				fmt.Fprintf(&sb, "  Bool.eqb (parse_skel %s) %v%s\n", gList(ts), s.Accepted, sep)
 			}
+			sb.WriteString("].\nPrint sv.\n")
+			dir := fmt.Sprintf("%s/skel%d", o.WorkDir, sh)
+			_ = os.MkdirAll(dir, 0o755)
+			file := dir + "/cases.v"
+			if err := os.WriteFile(file, []byte(sb.String()), 0o644); err != nil {
+				errs[sh] = err
+				return
+			}
+			out, err := exec.Command("timeout", "1200", "coqc", "-Q", o.CoqDir, "DT", "-Q", dir, "SK", file).CombinedOutput()
+			if err != nil {
+				errs[sh] = fmt.Errorf("coqc on %s: %v\n%s", file, err, tail(string(out), 1200))
+				return
+			}
+			k := strings.Index(string(out), "sv =")
+			if k < 0 {
+				errs[sh] = fmt.Errorf("skeleton model: no result in coqc output for %s", file)
+				return
+			}
+			verdicts[sh] = regexp.MustCompile(`true|false`).FindAllString(string(out[k:]), -1)
+			if len(verdicts[sh]) != hi-lo {
+				errs[sh] = fmt.Errorf("skeleton model: %d verdicts for %d skeletons", len(verdicts[sh]), hi-lo)
+			}
+			_ = os.RemoveAll(dir)
+		}(sh, lo, hi)
+	}
+	wg.Wait()
+	for _, e := range errs {
+		if e != nil {
+			return e
 		}
-		sep := ";"
-		if i == len(skObserved)-1 {
-			sep = ""
-		}
-		fmt.Fprintf(&sb, "  Bool.eqb (parse_skel %s) %v%s\n", gList(ts), s.Accepted, sep)
-	}
-	sb.WriteString("].\nPrint sv.\n")
-	dir := o.WorkDir + "/skel"
-	_ = os.MkdirAll(dir, 0o755)
-	file := dir + "/cases.v"
-	if err := os.WriteFile(file, []byte(sb.String()), 0o644); err != nil {
-		return err
-	}
-	out, err := exec.Command("timeout", "1200", "coqc", "-Q", o.CoqDir, "DT", "-Q", dir, "SK", file).CombinedOutput()
-	if err != nil {
-		return fmt.Errorf("coqc on %s: %v\n%s", file, err, tail(string(out), 1200))
-	}
-	vs := regexp.MustCompile(`true|false`).FindAllString(string(out[strings.Index(string(out), "sv ="):]), -1)
-	if len(vs) != len(skObserved) {
-		return fmt.Errorf("skeleton model: %d verdicts for %d skeletons", len(vs), len(skObserved))
 	}
 	for i, s := range skObserved {
 		res.ModelEvals++
-		if vs[i] != "true" {
+		if verdicts[i/per][i%per] != "true" {
 			res.Mismatches++
 			res.AddViolation(&Violation{Kind: "no-failing-input-found", Class: "correspondence", Lemma: "correspondence parse_skel (Model/ParserSkel.v) vs parseTpl/processCtl (parser.go)",
 				What: fmt.Sprintf("the nesting model and the real parser disagree on skeleton %v (parser accepted=%v)", s.Tags, s.Accepted), Replay: map[string]any{"tags": s.Tags, "template": skSource(s.Tags)}})
